@@ -3,7 +3,7 @@
    all-zero columns from the right, rows to tuples, empirical law (Loaders.empirical).
    Definitions only; proofs live in Proofs/CoverP.v. *)
 From Coq Require Import List ZArith QArith Bool Arith.
-From GV Require Import Lib.Tree Lib.QSumL Model.Loaders.
+From GV Require Import Lib.Tree Lib.QSumL Model.Loaders Model.Sample.
 Import ListNotations.
 Local Open Scope nat_scope.
 
@@ -37,13 +37,6 @@ Definition pyidx (n : nat) (i : Z) : option nat :=
   else if (- Z.of_nat n <=? i)%Z && (i <? 0)%Z then Some (Z.to_nat (i + Z.of_nat n))
   else None.
 
-Fixpoint upd_nth {A} (n : nat) (f : A -> A) (l : list A) : list A :=
-  match l, n with
-  | [], _ => []
-  | h :: t, O => f h :: t
-  | h :: t, S n' => h :: upd_nth n' f t
-  end.
-
 Definition table := list (list Z).
 
 (* jds[vertex - zero_index][clique_size - 1] += 1 for every vertex of one clique *)
@@ -53,7 +46,7 @@ Fixpoint count_clique (zero : Z) (size : nat) (vs : list Z) (t : table) : option
   | v :: vs' =>
       match pyidx (length t) (v - zero) with
       | None => None                                     (* IndexError *)
-      | Some r => count_clique zero size vs' (upd_nth r (upd_nth (size - 1) Z.succ) t)
+      | Some r => count_clique zero size vs' (bump (size - 1) r t)   (* row r, column size-1 += 1 *)
       end
   end.
 
